@@ -95,6 +95,11 @@ static bool typed_op(Message & m, char mode, const String & fn, const std::strin
       FlatCountableRef fc(GetByteBufferFromPool((uint32)v.size(), dataptr(v)));
       return ((mode=='a') ? m.AddFlat(fn, fc) : m.PrependFlat(fn, fc)).IsOK();
    }
+   if (t == "F")
+   {
+      FlatCountableRef fc(GetByteBufferFromPool((uint32)v.size(), dataptr(v)));
+      return ((mode=='a') ? m.AddFlat(fn, fc) : ((mode=='p') ? m.PrependFlat(fn, fc) : m.ReplaceFlat(oka, fn, idx, fc))).IsOK();
+   }
    if ((t.size() > 1)&&(t[0] == 'x'))
    {
       const uint32 tc = (uint32) strtoul(t.c_str()+1, NULL, 10);
@@ -482,6 +487,9 @@ static void run_case(int k, const std::string & head, const std::string & body)
          else if ((c == "xn")&&(a.size() == 3)) (void) REG(1).RemoveName(FN(2));
          else if ((c == "rn")&&(a.size() == 4)) (void) REG(1).Rename(FN(2), FN(3));
          else if ((c == "cl")&&(a.size() == 2)) REG(1).Clear();
+         else if ((c == "mf")&&(a.size() == 3)) (void) REG(1).MoveNameToFront(FN(2));
+         else if ((c == "mb")&&(a.size() == 3)) (void) REG(1).MoveNameToBack(FN(2));
+         else if ((c == "cn")&&(a.size() == 4)) {Message & m = REG(1); (void) m.CopyName(FN(2), m, FN(3));}
          else if ((c == "cp")&&(a.size() == 3)) {Message & d = REG(1); const Message & s = REG(2); if (&d != &s) d = s;}
          else if ((c == "u")&&(a.size() == 2))
          {
